@@ -455,13 +455,25 @@ struct Exp {
 struct Pre {
     viol: Vec<(&'static str, &'static str)>,
     unspec: Option<&'static str>,
+    /// the unspecified aspect is "returns, or panics with this dedicated message"
+    may: Option<&'static str>,
     heavy: bool,
     known: Vec<KnownSpec>,
 }
 
 impl Pre {
     fn new() -> Pre {
-        Pre { viol: Vec::new(), unspec: None, heavy: false, known: Vec::new() }
+        Pre { viol: Vec::new(), unspec: None, may: None, heavy: false, known: Vec::new() }
+    }
+    /// the documentation leaves open whether the call is rejected or answered when `cond`, but
+    /// names the message of the rejection: returning is fine, a panic must carry `msg` (or the
+    /// message of another violated precondition)
+    fn may(mut self, cond: bool, label: &'static str, msg: &'static str) -> Pre {
+        if cond && self.unspec.is_none() {
+            self.unspec = Some(label);
+            self.may = Some(msg);
+        }
+        self
     }
     /// documented precondition `label` is violated when `cond`; `msg` = dedicated message ("" = any)
     fn must(mut self, cond: bool, label: &'static str, msg: &'static str) -> Pre {
@@ -488,7 +500,11 @@ impl Pre {
     }
     fn done(self) -> Exp {
         if let Some(l) = self.unspec {
-            return Exp { kind: Kind::Unspec, label: l, msgs: vec![], heavy: self.heavy, known: self.known };
+            let msgs = match self.may {
+                Some(m) if self.viol.iter().all(|v| !v.1.is_empty()) => std::iter::once(m).chain(self.viol.iter().map(|v| v.1)).collect(),
+                _ => vec![],
+            };
+            return Exp { kind: Kind::Unspec, label: l, msgs, heavy: self.heavy, known: self.known };
         }
         if let Some((l, _)) = self.viol.first() {
             let any = self.viol.iter().any(|v| v.1.is_empty());
@@ -1477,7 +1493,10 @@ fn pre_powf(x: &FV, y: &FV, p: u64) -> Exp {
         .must(any_inf(&[x, y]), L_INF, M_INF)
         .must(x.finite() && p == 0, L_UNLIM, M_UNLIM)
         .unspec(fin && neg && y01, "unspecified: negative base with exponent 0 or 1")
-        .unspec(fin && neg && !y01 && y.is_int(), "unspecified: negative base with an integer exponent")
+        .unspec(fin && neg && !y01 && y.is_int() && (any_far(&[x, y]) || ybig), "unspecified: power whose exponent may overflow")
+        // error.rs documents the rejection of negative bases; the source announces that integer
+        // exponents may be answered one day: a value or the documented rejection, nothing else
+        .may(fin && neg && !y01 && y.is_int(), "negative base with an integer exponent: value or the documented rejection", M_POWNEG)
         .must(neg && !y01 && !(y.finite() && y.is_int()), L_POWNEG, M_POWNEG)
         .must(fin && x.zero && y.neg && !y.zero, L_DIV0, "")
         .known(fin && p != 0 && x.zero && y.neg && !y.zero, KF_POWF0, On::Returns)
@@ -2830,7 +2849,11 @@ fn assess(out: &mut Out, ctx: &Ctx, exp: &Exp, obs: Obs, what: &str, build: &'st
                         failing(out, 0, &m, format!("{what} [{build}]: panicked, but not with the documented message {:?} ({}): {}", exp.msgs, exp.label, normalise(&m)));
                     }
                 }
-                Kind::Unspec => {}
+                Kind::Unspec => {
+                    if !exp.msgs.is_empty() && !exp.msgs.iter().any(|t| m.contains(t)) {
+                        failing(out, 0, &m, format!("{what} [{build}]: panicked, but not with the message documented for this rejection {:?} ({}): {}", exp.msgs, exp.label, normalise(&m)));
+                    }
+                }
             }
         }
         Obs::Hang(s) => {
